@@ -191,6 +191,20 @@ Inductive db_op : tprog dstate dres -> Prop :=
 Definition db_drain (d : dstate) : dstate * dstate := (d, []).
 Definition op_db_bytes_draining : tprog dstate dres := TAct db_drain (fun d => TDone (DBytes (enc_db d))).
 
+(* ==== a parsed PKCS#7 object ==== *)
+Section P7.
+Variable rsa_ok : N -> bytes -> bytes -> bool.
+Definition p7_get (p : pkcs7) : pkcs7 * pkcs7 := (p, p).
+Inductive pres := PVerify (v : outcome bool) | PHas (b : bool).
+Definition op_p7_verify (c : cert) : tprog pkcs7 pres :=
+  TAct p7_get (fun p => TDone (PVerify (pkcs7_verify rsa_ok p c))).
+Definition op_p7_has (c : cert) : tprog pkcs7 pres :=
+  TAct p7_get (fun p => TDone (PHas (has_certificate p c))).
+Inductive p7_op : tprog pkcs7 pres -> Prop :=
+| po_verify c : p7_op (op_p7_verify c)
+| po_has c : p7_op (op_p7_has c).
+End P7.
+
 (* ==== a signed-update value (efibytes: a bytes.Buffer held by value) ==== *)
 Record bstate := mkB { b_data : bytes; b_off : N }.
 Definition buf_now (b : bstate) : bytes := skipn (N.to_nat (b_off b)) (b_data b).
